@@ -2,6 +2,7 @@ import Lemmas
 import Model.NewWithFS
 import Props.C05
 import Props.C06
+import Props.C04N
 /-!
 # C04 — the backup location is sealed off in the documented layering (lexical part)
 
